@@ -122,6 +122,7 @@ impl Receiver {
     pub open spec fn wf(&self) -> bool { recv_wf(self.read.pos@, self.read.stream@, self.buf@) }
 
 //@extract id=tls_recv file=netconf/src/transport/tls.rs impl=/impl RecvHandle for Receiver/ fn=recv rules=R1,R2,R3,R5,R6,R14,R17 consts=MARKER
+//@local searched /let mut (\w+) = 0;/
 //@contract
         requires old(self).wf(),
         ensures
@@ -141,7 +142,7 @@ impl Receiver {
                 self.read.pos@ > old(self).read.pos@ ==> (old(self).read.pos@ <= self.read.prev@ <= self.read.pos@
                     && !has_marker(old(self).buf@ + old(self).read.stream@.subrange(old(self).read.pos@, self.read.prev@))), // OBL:C06.recv.prompt_delivery
             decreases self.read.stream@.len() - self.read.pos@,                            // OBL:C07.recv.progress_or_error
-//@before /if let Some\(index\) = self\.finder\.find/
+//@before /if let Some\(\w+\) = self\.finder\.find/
             proof {
                 lemma_first_marker_shift_all(self.buf@, searched as int);
                 lemma_no_marker_shift(self.buf@, searched as int);
@@ -173,6 +174,7 @@ impl Receiver {
     pub open spec fn wf(&self) -> bool { recv_wf(self.read.pos@, self.read.stream@, self.buf@) }
 
 //@extract id=junos_local_recv file=netconf/src/transport/junos_local.rs impl=/impl RecvHandle for Receiver/ fn=recv rules=R1,R2,R3,R5,R6,R14,R17 consts=MARKER
+//@local searched /let mut (\w+) = 0;/
 //@contract
         requires old(self).wf(),
         ensures
@@ -191,7 +193,7 @@ impl Receiver {
                 self.read.pos@ > old(self).read.pos@ ==> (old(self).read.pos@ <= self.read.prev@ <= self.read.pos@
                     && !has_marker(old(self).buf@ + old(self).read.stream@.subrange(old(self).read.pos@, self.read.prev@))), // OBL:C06.recv.prompt_delivery
             decreases self.read.stream@.len() - self.read.pos@,                            // OBL:C07.recv.progress_or_error
-//@before /if let Some\(index\) = self\.finder\.find/
+//@before /if let Some\(\w+\) = self\.finder\.find/
             proof {
                 lemma_first_marker_shift_all(self.buf@, searched as int);
                 lemma_no_marker_shift(self.buf@, searched as int);
